@@ -50,6 +50,10 @@ type Stop struct {
 	AfterCalls int    `json:"after_calls"`
 	Async      bool   `json:"async,omitempty"`
 	AtUs       int64  `json:"at_us,omitempty"`
+	// InFetch: the stop is issued from inside the fetch that delivers page InFetchPage, right before that fetch
+	// returns the page successfully (a request in flight which still succeeds); AfterCalls is not used then.
+	InFetch     bool `json:"in_fetch,omitempty"`
+	InFetchPage int  `json:"in_fetch_page,omitempty"`
 }
 
 type Stream struct {
@@ -278,6 +282,9 @@ func drive(sp *Spec, res *result) {
 		_ = spg.DryUp()
 		atomic.StoreInt64(&res.DrySeq1, seq.Add(1))
 	}
+	if sp.Stop != nil && sp.Stop.InFetch {
+		src.stopPage, src.stopInFetch = sp.Stop.InFetchPage, doStop
+	}
 	asyncStop := sp.Stop != nil && sp.Stop.Async
 	asyncDry := st != nil && st.Dry == "async"
 	if asyncStop {
@@ -362,7 +369,7 @@ func drive(sp *Spec, res *result) {
 	maxCalls := (sp.nItems()+3)*len(pat) + 8
 	ended := false
 	for n := 0; n < maxCalls && !ended; n++ {
-		if sp.Stop != nil && !sp.Stop.Async && sp.Stop.AfterCalls == n {
+		if sp.Stop != nil && !sp.Stop.Async && !sp.Stop.InFetch && sp.Stop.AfterCalls == n {
 			doStop()
 		}
 		rec, ok := call(pat[n%len(pat)], "main")
